@@ -9,7 +9,7 @@
    lookup in that state.  The only hypothesis, `shadow_wf w`, says that the parent loader binds a type under
    the key of its name (checked on every case of the correspondence run). *)
 From Coq Require Import ZArith NArith Bool List String Ascii Lia.
-From PcoreV Require Import Model.Base Model.FileLoader Proofs.FileLoaderProofs.
+From PcoreV Require Import Model.Base Model.FileLoader Model.FileLoaderText Proofs.FileLoaderProofs Proofs.FileLoaderTextProofs.
 Import ListNotations.
 Local Open Scope nat_scope.
 
@@ -153,6 +153,66 @@ Theorem C15_chain_parent_binding_found :
                tv_name v' = tv_name v /\ tv_ts v' = tv_ts v /\ (v' = v \/ tv_marker v' = 0%N).
 Proof. exact step_chain_parent_binding. Qed.
 Print Assumptions C15_chain_parent_binding_found.
+
+(* ---- the line that an error names is the line IN THE FILE ----------------------------------------------------- *)
+(* Model/FileLoaderText.v: line_at text pos = what StringReader.Line() answers when the first pos bytes of the
+   text are consumed (the parser reports the line of its reader when it gives up); def_line text = the line on
+   which the first token starts (types.DefinitionLocation: misnamed files, files without a definition).
+   For every text that is a preamble p followed by a body b, whatever the preamble holds (blank lines first,
+   white-space-only lines, comments, any number, any order): a position k of the body is reported on the line it
+   has within the body PLUS the line feeds of the preamble - nothing in front of the definition is dropped from the
+   count.  (The correspondence run checks on the texts of the files that observed errors name that the line
+   numbers of the world - CMalformed line, f_defline - are line_at / def_line of the text: text_ok.) *)
+Theorem C15_parse_error_line_in_file :
+  forall p b k, line_at (p ++ b) (List.length p + k) = (count_lf p + line_at b k)%N.
+Proof. exact line_at_app. Qed.
+Print Assumptions C15_parse_error_line_in_file.
+
+(* blank false p: p holds no token and ends outside a comment (white space ' ' '\t' '\n' and '#' comments only) *)
+Theorem C15_definition_line_in_file :
+  forall p b, blank false p = true ->
+    (scan false b < List.length b -> def_line (p ++ b) = (count_lf p + def_line b)%N) /\
+    (forall c r, b = c :: r -> is_ws c = false -> is_hash c = false -> def_line (p ++ b) = (count_lf p + 1)%N) /\
+    def_line p = 1%N.
+Proof.
+  intros p b Hp. split; [exact (def_line_app p b Hp)|]. split; [|exact (def_line_blank p Hp)].
+  intros c r -> Hw Hh. exact (def_line_token_first p c r Hp Hw Hh).
+Qed.
+Print Assumptions C15_definition_line_in_file.
+
+(* ---- a new generation of loaders answers from the layout it stands on ------------------------------------------ *)
+(* run_session: generations (layout, operations) follow each other in one process over the same directory path;
+   each generation has new loaders.  Whatever the earlier generations held at the same paths and whatever was
+   looked up in them: the answers (and file reads) of the last generation are those of its own layout alone; its
+   last lookup is a lookup in a state reached in its own world - so every theorem above speaks about the files of
+   the CURRENT layout (C15_session_found_in_current_layout, C15_session_error_in_current_layout). *)
+Theorem C15_new_loaders_answer_from_current_layout :
+  forall fuel gs w ops, run_session fuel (gs ++ [(w, ops)]) = run_session fuel gs ++ run w fuel ops.
+Proof. exact run_session_last. Qed.
+Print Assumptions C15_new_loaders_answer_from_current_layout.
+
+Theorem C15_session_found_in_current_layout :
+  forall fuel gs w ops ctx name v rd d, shadow_wf w ->
+    last (run_session fuel (gs ++ [(w, ops ++ [OpLoad ctx name])])) d = (OFound v, rd) ->
+    tv_name v = norm_name name /\
+    exists v0, file_or_parent w (norm_name name) v0 /\ tv_name v = tv_name v0 /\ tv_ts v = tv_ts v0 /\
+               (v = v0 \/ tv_marker v = 0%N).
+Proof.
+  intros fuel gs w ops ctx name v rd d Hsh H. rewrite session_last_lookup in H.
+  destruct (lookup_after w fuel ops ctx name) as [s' x] eqn:E. cbn [snd] in H. subst x.
+  split; [exact (found_carries_name w fuel ops ctx name s' v rd Hsh E)|exact (found_has_file w fuel ops ctx name s' v rd Hsh E)].
+Qed.
+Print Assumptions C15_session_found_in_current_layout.
+
+Theorem C15_session_error_in_current_layout :
+  forall fuel gs w ops ctx name e rd d, shadow_wf w ->
+    last (run_session fuel (gs ++ [(w, ops ++ [OpLoad ctx name])])) d = (OErr e, rd) -> err_ok w e.
+Proof.
+  intros fuel gs w ops ctx name e rd d Hsh H. rewrite session_last_lookup in H.
+  destruct (lookup_after w fuel ops ctx name) as [s' x] eqn:E. cbn [snd] in H. subst x.
+  exact (reported_names_bad_file w fuel ops ctx name s' e rd Hsh E).
+Qed.
+Print Assumptions C15_session_error_in_current_layout.
 
 (* ---- non-vacuity: a concrete module, computed -------------------------------------------------------------- *)
 
@@ -301,3 +361,44 @@ Proof.
   split; [vm_compute; reflexivity|]. split; [vm_compute; reflexivity|].
   intros j' [H1 H2]. exfalso. change (List.length (w_mods ex_chain)) with 2 in H2. lia.
 Qed.
+
+(* the line model computes: three lines without a token (a blank line first, a white-space-only line, a comment)
+   in front of a malformed body whose offending token `c` stands on its 4th line: reported on line 7 of the file;
+   the definition starts on line 4 *)
+Definition ex_pre : str := s (String (ascii_of_nat 10) "") ++ s "  " ++ [9%N; 10%N] ++ s "# a comment" ++ [10%N].
+Definition ex_body : str :=
+  s "type Obj = Struct[{" ++ [10%N] ++ s " a => Integer," ++ [10%N] ++ s " b => String" ++ [10%N] ++ s " c => Float" ++ [10%N] ++ s "}]" ++ [10%N].
+Example C15_example_lines :
+  blank false ex_pre = true /\ count_lf ex_pre = 3%N /\ scan false ex_body < List.length ex_body /\
+  def_line (ex_pre ++ ex_body) = 4%N /\
+  line_at ex_body 52 = 4%N /\ line_at (ex_pre ++ ex_body) (List.length ex_pre + 52) = 7%N /\
+  (* a byte order mark or a CR in front is a token start for DefinitionLocation, not white space *)
+  def_line ([239%N; 187%N; 191%N] ++ ex_pre ++ ex_body) = 1%N /\ blank false [13%N; 10%N] = false.
+Proof. repeat split; vm_compute; try reflexivity. apply Nat.leb_le. vm_compute. reflexivity. Qed.
+
+(* two generations over the same path: bad.pp malformed at line 3, then repaired; foo.pp gone; wrong.pp now declares
+   the right name: the second generation's answers are those of the second layout *)
+Definition ex_world2 : world :=
+  {| w_top := TopSingle;
+     w_mods := [ {| m_name := s "mymod";
+                    m_walk := [ ex_file "types" true CNoDef 0;
+                                ex_file "types/bad.pp" false (CGood (s "Mymod::Bad") []) 120;
+                                ex_file "types/init_typeset.pp" false (CTypeSet (s "Mymod") [s "Bus"]) 130;
+                                ex_file "types/wrong.pp" false (CGood (s "Mymod::Wrong") []) 150 ] |} ];
+     w_shadow := [(s "integer", s "integer")] |}.
+
+Example C15_example_session :
+  run_session 8
+    [ (ex_world, [ OpLoad (-1) (s "Mymod::Foo"); OpLoad (-1) (s "Mymod::Bad"); OpLoad 0 (s "Mymod::Wrong"); OpLoad 0 (s "Mymod::Car") ]);
+      (ex_world2, [ OpLoad (-1) (s "Mymod::Foo"); OpLoad (-1) (s "Mymod::Bad"); OpLoad 0 (s "Mymod::Wrong"); OpLoad 0 (s "Mymod::Car");
+                    OpLoad 0 (s "Mymod::Bus") ]) ]
+  = [ (OFound {| tv_name := s "mymod::foo"; tv_marker := 10; tv_ts := false |}, [(0, s "types/Foo.pp")]);
+      (OErr (EParse 0 (s "types/bad.pp") 3), [(0, s "types/bad.pp")]);
+      (OErr (EWrongDef 0 (s "types/wrong.pp") 1), [(0, s "types/wrong.pp")]);
+      (OFound {| tv_name := s "mymod::car"; tv_marker := 31; tv_ts := false |}, [(0, s "types/init_typeset.pp")]);
+      (ONotFound, [(0, s "types/init_typeset.pp")]);   (* the parent-name search reads the module's TypeSet: now without Car *)
+      (OFound {| tv_name := s "mymod::bad"; tv_marker := 120; tv_ts := false |}, [(0, s "types/bad.pp")]);
+      (OFound {| tv_name := s "mymod::wrong"; tv_marker := 150; tv_ts := false |}, [(0, s "types/wrong.pp")]);
+      (ONotFound, []);
+      (OFound {| tv_name := s "mymod::bus"; tv_marker := 131; tv_ts := false |}, []) ].
+Proof. vm_compute. reflexivity. Qed.
